@@ -490,10 +490,19 @@ def replay(ctx, case):
 
 
 MANIFEST = {
-    "text": "Lean theorems over the builder model (Props/C05.lean: the invariant holds after every prefix of every run with "
-            "arbitrary junk, aborted runs followed by a successful run equal the clean build), tied to the source by replaying "
-            "real aborted invocations (killed at the k-th state update, failing / killing step scripts) against the model, and "
-            "an end-to-end oracle enumerating every cut point of small projects.",
-    "note": "trusted: Lean kernel, harness/props/c05.py, harness/gen/buildsim*.py, bash, process-kill semantics of the OS",
-    "technique": "Lean 4 proof over hand-written model + differential correspondence + exhaustive cut-point enumeration on small projects",
+    "text": "Proved in Lean over the builder model shared with C01: truthful_at_every_cut (after every prefix of the micro-operations "
+            "of every invocation - any project, flags, cut point, junk content left by a killed script, failing script - the stored "
+            "state claims no more than the disk holds), abort_then_cook_eq_clean (any history of successful, failing and killed "
+            "invocations followed by a successful one yields the from-scratch content in every reachable workspace), "
+            "cut_in_script_unclaimed (while a script runs / after it failed nothing is claimed about its workspace; holds without "
+            "any hypothesis). The proofs depend on constants regenerated from the source: the prune sites invalidate the state "
+            "before emptying a workspace (fix 4782bbe; reverting it breaks the proof). Tied to the source by replaying real aborted "
+            "invocations (Bob killed at the k-th state update; scripts that exit 1 / kill themselves / kill Bob after half of "
+            "their output) against the model with the corresponding fuel, and by an oracle that enumerates cut points, chains of "
+            "aborts and follow-up projects (same / reverted / edited) and compares with the clean build; a fixed git scenario "
+            "covers SCM switch / attic move.",
+    "note": "trusted: Lean kernel, harness/props/c05.py, harness/gen/buildsim*.py, tools/consts/c05.py, bash, process-kill "
+            "semantics (completed file operations persist; machine crashes and the state-file commit are C10); the log-level "
+            "statement no_false_uptodate is kept as goal (its two halves are proved)",
+    "technique": "Lean 4 proof over hand-written model + differential correspondence + cut-point enumeration on small projects",
 }
